@@ -9,7 +9,7 @@ import re
 import z3
 
 from vcommon import *  # noqa
-from mcheck import MirCrate, decide
+from mcheck import MirCrate, decide, model_value
 from mir.sym import Adt, En, Opaque, Ref, Sc, StrV, mk_int, some, none
 from mir.parser import MirUnsupported
 from checks import C15 as c15
@@ -414,6 +414,44 @@ def run(check, mirror, tier):
     jobs.append(lambda c: decide(c, crate, "zone_display_reread", setup_print, post_print,
                                  lambda i, rb: replay_zone_print(strip_cell(i), rb), rb, enums=ENUMS, models=MODELS, min_paths=2,
                                  known_predicates=KNOWN_PRED))
+
+    # --- O4: a time built from components (time(h, m, s, offset)) carries only offsets its own text form can express --------------
+    def setup_hmso(ex, st):
+        h, m, s_ = (ex.fresh_int(st, "u8", n) for n in ("hour", "minute", "second"))
+        nano = ex.fresh_int(st, "u64", "nano")
+        off = ex.fresh_int(st, "i32", "offset")
+        return "FeelTime::new_hmso_opt", [h, m, s_, nano, off], dict(hour=h.e, minute=m.e, second=s_.e, offset=off.e)
+
+    def post_hmso(ex, o, v):
+        valid = z3.And(v["hour"] < 24, v["minute"] < 60, v["second"] < 60, v["offset"] >= -53999, v["offset"] <= 53999)
+        r = o.value
+        res = [("a time with an explicit offset is accepted iff hour<24, minute<60, second<60 and the offset is within +-14:59:59 "
+                "(what a time literal can express and chrono can represent)", (r.disc == 1) == valid)]
+        if "Some" in r.alts:
+            t = r.alts["Some"][0]
+            res.append(("the fields and the offset are the given ones",
+                        z3.Implies(r.disc == 1, z3.And(t.fields[0].e == v["hour"], t.fields[1].e == v["minute"], t.fields[2].e == v["second"],
+                                                       zone_matches(t.fields[4], z3.If(v["offset"] == 0, z3.IntVal(0), z3.IntVal(2)), v["offset"])))))
+        return res
+
+    def replay_hmso(i, rb):
+        off = i["offset"]
+        dur = 'duration("%sPT%dS")' % ("-" if off < 0 else "", abs(off))
+        expr = "time(%d, %d, %d, %s)" % (i["hour"] % 24, i["minute"] % 60, i["second"] % 60, dur)
+        _, out, _ = replay_call(rb, ["feel", "%s = %s" % (expr, expr)])
+        _, shown, _ = replay_call(rb, ["feel", "string(%s)" % expr])
+        valid = -53999 <= off <= 53999
+        bad = out.startswith("PANIC") or (valid and out.strip() != "VALUE true") or (not valid and not shown.startswith("VALUE null"))
+        if not bad and valid:
+            txt = shown[6:].strip('"') if shown.startswith("VALUE ") else shown
+            _, back, _ = replay_call(rb, ["feel", 'time("%s") = %s' % (txt, expr)])
+            bad = back.strip() != "VALUE true"
+            shown += "; read back equal: " + back
+        return bad, "%s: equals itself -> %s; string -> %s" % (expr, out[:80], shown[:120])
+
+    jobs.append(lambda c: decide(c, crate, "time_from_components", setup_hmso, post_hmso, replay_hmso, rb, enums=ENUMS, models=MODELS, min_paths=2,
+                                 known_predicates=KNOWN_PRED, describe=lambda m, v: {k: model_value(m, x) for k, x in v.items()},
+                                 prefer=lambda v: z3.And(v["hour"] < 24, v["minute"] < 60, v["second"] < 60, v["offset"] % 3600 == 0)))
 
     # --- O5: FeelDate::try_from(&str) ------------------------------------------------------------
     ysh = shapes["year"]
